@@ -584,8 +584,8 @@ def check_plumbing(res, prop, cm, roles, m, top, b):
             dk, dv, o = dl[0]
             # what an inlined lookup helper returned is what gets delivered; with the lookup written out in the loop itself there
             # is no such return and the delivered value is judged by R-SIB-BODY (same outcome as the single form) and C01
-            same_val = (not res_terms) or dv == res_terms[-1] or (empty_result(dv) and empty_result(res_terms[-1])) \
-                or from_pointer(dv, res_terms[-1])
+            rts = [r for r in res_terms if r != ('void',) and r is not None] or res_terms
+            same_val = (not rts) or any(dv == r or (empty_result(dv) and empty_result(r)) or from_pointer(dv, r) for r in rts[-3:])
             if o.kind == 'OUT_CALL' or getattr(o, 'via_out_iterator', False):
                 good = dk == key and same_val
             elif o.kind == 'OUT_WR':
@@ -598,6 +598,14 @@ def check_plumbing(res, prop, cm, roles, m, top, b):
     else:
         from rules_seq import tally_info
         name, incs = tally_info(b.top, b)
+        if name is None and isinstance(b.top.ret, tuple) and any(isinstance(t, tuple) and len(t) > 2 and t[0] == 'q' and t[1] == 'size'
+                                                                  for t in lift.subterms(b.top.ret)) \
+                and any(e[0] == 'enter' and '::~' in str(e[1]) for e in b.top.events):
+            msg = ('G-UNKNOWN %s returns a count computed from container sizes (%s), not a per-element tally in %s reached from %s::%s'
+                   % (m.name, show(b.top.ret)[:80], show_site(site_of_seg(b.top, m)), cm.name, m.key()))
+            if msg not in res.incomplete:
+                res.incomplete.append(msg)
+            return
         effs = ops.body_effects(b, roles)
         success = (actual_class(effs) in ('BIND', 'UPDATE')) if k == 'INSERT' else bool(seg.effs('UNBIND'))
         n = len([e for e in incs if e.how != 'decl' and ops.is_increment(e, name)])
